@@ -6,6 +6,14 @@ import (
 	"verif/harness/hx"
 )
 
+// TOC modtimes at their boundaries (RFC 3339): absent, unparsable, fractional seconds, non-UTC offsets, the epoch,
+// before 1970, before 1678 / after 2262 (outside int64 nanoseconds), year 1 (Go's zero time) and year 9999
+var mtimes = []string{"", "not-a-time", "2020-02-29T12:34:56Z", "2019-01-01T00:00:00+09:00", "1970-01-01T00:00:00Z",
+	"2022-05-05T05:05:05.123456789Z", "0001-01-01T00:00:00Z", "2021-06-07T08:09:10.5Z", "2021-06-07T08:09:10.000000001Z",
+	"2021-06-07T08:09:10.999999999Z", "2018-03-04T05:06:07.25-03:30", "1969-12-31T23:59:59Z", "1969-12-31T23:59:59.999999999Z",
+	"1901-02-03T04:05:06Z", "1600-01-01T00:00:00Z", "2300-01-01T00:00:00.5Z", "9999-12-31T23:59:59Z", "9999-12-31T23:59:59.999999999+14:00",
+	"0001-01-01T00:00:00.000000001Z", "1970-01-01T00:00:00.000000001Z"}
+
 var xattrKeys = []string{"user.k", "security.capability", "user.long.name", "trusted.x"}
 
 func genFiles(r *hx.Rng, chunk int) []FileSpec {
@@ -229,7 +237,7 @@ func genMut(r *hx.Rng) Mut {
 		v := []string{"", "", "val", "\x00\x01"}[r.Intn(4)]
 		return Mut{Op: "xattr", I: i, S: xattrKeys[r.Intn(len(xattrKeys))], T: v}
 	case 9:
-		return Mut{Op: "mtime", I: i, S: []string{"", "not-a-time", "2020-02-29T12:34:56Z", "2019-01-01T00:00:00+09:00", "1970-01-01T00:00:00Z", "2022-05-05T05:05:05.123456789Z", "0001-01-01T00:00:00Z"}[r.Intn(7)]}
+		return Mut{Op: "mtime", I: i, S: mtimes[r.Intn(len(mtimes))]}
 	case 10:
 		return Mut{Op: "root", J: j, S: []string{"./", "/", "", ".", "a/..", "../"}[r.Intn(6)], N: int64(r.Intn(8))}
 	case 11:
@@ -289,6 +297,15 @@ func corpus() []Case {
 		{Files: base, ChunkSize: 50, Level: 9, Ops: []Mut{{Op: "badlink", J: 2, S: "bad", T: "nowhere"}}, BadNeighbour: true, Sched: all},
 		{Files: base, ChunkSize: 50, Level: 9, Ops: []Mut{{Op: "chunkfirst"}}},
 		{Files: nil, ChunkSize: 50, Level: 9, NullEntries: true},
+		// modtime boundaries on the reg (1), dir (0), symlink (4), hardlink (3) and empty reg (5) entries of the base tar
+		{Files: base, ChunkSize: 64, Level: 9, Ops: []Mut{{Op: "mtime", I: 1, S: "2021-06-07T08:09:10.5Z"}, {Op: "mtime", I: 0, S: "2021-06-07T08:09:10.000000001Z"},
+			{Op: "mtime", I: 4, S: "2021-06-07T08:09:10.999999999Z"}, {Op: "mtime", I: 3, S: "2018-03-04T05:06:07.25-03:30"}, {Op: "mtime", I: 5, S: "1969-12-31T23:59:59.999999999Z"}}},
+		{Files: base, ChunkSize: 64, Level: 9, Ops: []Mut{{Op: "mtime", I: 1, S: "2018-03-04T05:06:07.25-03:30"}, {Op: "mtime", I: 0, S: "1969-12-31T23:59:59Z"},
+			{Op: "mtime", I: 4, S: "1600-01-01T00:00:00Z"}, {Op: "mtime", I: 5, S: "9999-12-31T23:59:59.999999999+14:00"}, {Op: "mtime", I: 2, S: ""}}},
+		{Files: base, ChunkSize: 64, Level: 9, Ops: []Mut{{Op: "mtime", I: 1, S: "9999-12-31T23:59:59Z"}, {Op: "mtime", I: 0, S: "2300-01-01T00:00:00.5Z"},
+			{Op: "mtime", I: 4, S: "1970-01-01T00:00:00.000000001Z"}, {Op: "mtime", I: 5, S: "0001-01-01T00:00:00.000000001Z"}, {Op: "mtime", I: 2, S: "0001-01-01T00:00:00Z"},
+			{Op: "root", J: 0, S: "./", N: 1}, {Op: "mtime", I: 0, S: "1901-02-03T04:05:06.75+05:45"}}},
+		{Files: base, ChunkSize: 64, Level: 1, Comp: "zstd", Ops: []Mut{{Op: "mtime", I: 1, S: "2021-06-07T08:09:10.000000001Z"}, {Op: "mtime", I: 0, S: "1969-12-31T23:59:59.5Z"}}},
 		// zstd:chunked and external-TOC blobs (builder output, mutated TOC, trailing bytes after the TOC)
 		{Files: base, ChunkSize: 64, Level: 1, Comp: "zstd", Sched: all},
 		{Files: base, ChunkSize: 50, MinChunkSize: 1000, Level: 9, Comp: "zstd", Ops: []Mut{{Op: "dropdir", I: 0}, {Op: "root", J: 0, S: "./", N: 1}}, Trail: 700, TrailByte: " "},
